@@ -329,6 +329,10 @@ func scenario(seed int64, idx int, withExpiry bool) run {
 				data = []byte(other.Address())
 			}
 			d, s := signer.Sign(data)
+			if rng.Intn(2) == 0 { // the read-throttle window of this address has passed (the flash memory is the harness's own object)
+				fl.RemoveAddress(a.Address())
+				out.stats["balance.after_throttle_window"]++
+			}
 			_, err := srv.Balance(bg, &protobufcompiled.SignedHash{Address: a.Address(), Data: data, Hash: d[:], Signature: s})
 			throttled := errors.Is(err, notaryserver.ErrThrottle)
 			if err == nil && (signer != a || string(data) != a.Address()) {
